@@ -1420,5 +1420,6 @@ def run_case(case, config, progress=None):
         r = R.inner_result
     if cov is not None:
         r['cov'] = cov.flush()
+        r['cov_src'] = cov.runner_sources()
         r['params'] = cov.flush_params()
     return r
